@@ -809,7 +809,7 @@ pub fn run(mut ctx: Ctx) -> ! {
         Part::new(
             "linear_histories",
             "one replica, root group + up to 2 sub-groups created on the way, 1-30 operations each depending on all current heads: adds (individuals, nested groups, manager groups), removes, promotions, demotions, self-removes by managers, plain members, removed members and strangers, on active/inactive/unknown targets, a few on a never-created group; conditions none/0/1. process Ok <=> independent sequential model accepts; root_members/members/groups equal the model after every step; non-trivial = some author has both an accepted and a rejected operation",
-            20_000,
+            40_000,
             600_000,
         )
         .min_nontrivial(0.3)
@@ -822,8 +822,8 @@ pub fn run(mut ctx: Ctx) -> ! {
         Part::new(
             "concurrent_histories",
             "3-6 actors each with a replica, root + 0-2 sub-groups, 3-26 (thorough 44) steps: actions by managers (own view) mixed with 35% actions by arbitrary actors and 20% arbitrary targets, partial and full syncs; rejected operations are offered to every replica holding their dependencies. Necessary conditions (a)-(d) of the module doc; non-trivial = some author has both an accepted and a rejected operation",
-            4_000,
-        100_000,
+            10_000,
+            100_000,
         )
         .min_nontrivial(0.2)
         .shrink_iters(400),
@@ -844,7 +844,7 @@ pub fn run(mut ctx: Ctx) -> ! {
         Part::new(
             "revoked_author_branches",
             "root group with managers A and B (+ optional plain members C, D); A removes B or demotes B below Manage (optionally re-adds B, continues with 0-3 operations on C/D/E) while B, not having seen that, authors 1-5 operations of its own (adds of fresh members incl. managers, removes, access changes on C/D/F; optionally a manager added by B acts too). Documented strong-remove rules (crate docs: concurrent actions of a removed/demoted manager are invalidated, also after a re-add, and transitively): every replica accepts all operations and its direct members equal the sequential replay of A's branch alone (independent model), in both arrival orders and a generated third; non-trivial = B's operations changed B's own view",
-            12_000,
+            20_000,
             400_000,
         )
         .min_nontrivial(0.5),
